@@ -87,7 +87,7 @@ fn unstable_printers(v: &Value) -> Vec<(usize, &'static str)> {
 /// value *the parser itself produced*.
 fn shrink_unstable(v: &Value) -> Value {
     let mut cur = v.clone();
-    let mut budget = 4000;
+    let mut budget = shrink_budget();
     'outer: loop {
         for c in shrink_candidates(&cur) {
             budget -= 1;
